@@ -122,7 +122,7 @@ fn build_history(ctx: &Ctx, st: &mut Stats, seed: u64, j: &J) {
                     st.eval();
                     let got = adapter::outcome_of(adapter::guarded(|| b.build()));
                     let m2 = model.clone();
-                    let want = pool::on_fresh_thread(move || outcome_digest(&adapter::build(&m2)));
+                    let want = pool::on_fresh_thread(move || outcome_digest(&adapter::build_canonical(&m2)));
                     builds += 1;
                     log.push("build()".into());
                     if outcome_digest(&got) != want {
